@@ -24,7 +24,7 @@ NAME_CLASSES = {
     'nonascii': ('ñu', '日本', 'ä', 'Ünï'),
     'xml': ('a<b', 'a&b', 'a"b', 'a>b'),
     'json': ('a\\b', 'a"b', 'a\tb', 'a\\"b'),
-    'dotted': ('a.b', 'a.b.c'),
+    'dotted': ('a.b', 'a.b.c', 'a b.c d', 'v1.0-beta', '.ab', 'ab.'),
     'quote-edge': ('"ab"', "'ab'", '"', 'a"'),
     'nl': ('a\nb',),
 }
